@@ -188,6 +188,7 @@ class Importance(CellModifierInput):
             return
         new_tree = copy.deepcopy(tree)
         # comments stay with the original input
+        self._strip_comments(new_tree)
         new_tree["data"][-1].padding = syntax_node.PaddingNode(" ")
         new_tree["classifier"].particles.particles = [particle]
         tree["classifier"].particles.remove(particle)
@@ -199,6 +200,34 @@ class Importance(CellModifierInput):
             if part != particle:
                 new_importances[part] = other_tree
         self._particle_importances = new_importances
+
+    @staticmethod
+    def _strip_comments(node):
+        """
+        Removes every comment from the paddings of a copied syntax tree.
+
+        :param node: the node to clean, with everything below it.
+        :type node: SyntaxNodeBase
+        """
+        if isinstance(node, syntax_node.PaddingNode):
+            node._nodes = [
+                part
+                for part in node.nodes
+                if not isinstance(part, syntax_node.CommentNode)
+            ]
+        elif isinstance(node, syntax_node.ValueNode):
+            if node.padding is not None:
+                Importance._strip_comments(node.padding)
+        elif isinstance(node, syntax_node.ClassifierNode):
+            for part in (node.modifier, node.prefix, node.number, node.padding):
+                if part is not None:
+                    Importance._strip_comments(part)
+        elif isinstance(node, syntax_node.SyntaxNode):
+            for child in node.nodes.values():
+                Importance._strip_comments(child)
+        elif isinstance(node, syntax_node.ListNode):
+            for child in node.nodes:
+                Importance._strip_comments(child)
 
     def __delitem__(self, particle):
         if not isinstance(particle, Particle):
